@@ -1,6 +1,8 @@
 package main
 
 import (
+	"crypto/sha1"
+	"encoding/hex"
 	"encoding/json"
 	"fmt"
 	"os"
@@ -339,8 +341,27 @@ type concHarness struct {
 // iteration over User.IDs cannot permute the lookups of a thread and the step
 // trace stays deterministic whatever the lookups lock; threads collide pairwise
 // on the uid (1000 / 1001, both resolvable in the simulated account database).
-func concLine(i int) string {
-	return fmt.Sprintf(`type=USER_LOGIN msg=audit(1492037300.000:%d): pid=500 uid=%d ses=9 msg='op=login id=%d exe="/usr/sbin/sshd" hostname=h addr=10.0.0.9 terminal=ssh res=success'`, 70+i, 1000+i%2, 1000+i%2)
+func concLine(i int) string { return concLineUID(70+i, 1000+i%2) }
+
+func concLineUID(seq, uid int) string {
+	return fmt.Sprintf(`type=USER_LOGIN msg=audit(1492037300.000:%d): pid=500 uid=%d ses=9 msg='op=login id=%d exe="/usr/sbin/sshd" hostname=h addr=10.0.0.9 terminal=ssh res=success'`, seq, uid, uid)
+}
+
+// raceBody: what one free-running goroutine of the -race pass does.  Every call resolves ids nobody has
+// asked for before (so every lookup is a cache MISS that stores an entry) next to the shared ones: a cache
+// that is read or written outside its lock is then touched concurrently in every repetition, not only in
+// the first one.
+func raceBody(rep, g int) {
+	for k := 0; k < 6; k++ {
+		uid := 1000 + (g+k)%2
+		if k%2 == 1 {
+			uid = 50000 + rep*64 + g*8 + k
+		}
+		e, _ := aucoalesce.CoalesceMessages(parseGroup([]string{concLineUID(70+k, uid)}))
+		if e != nil {
+			aucoalesce.ResolveIDs(e)
+		}
+	}
 }
 
 func concBody(i, n int) string {
@@ -412,13 +433,13 @@ func c15RaceMain() {
 	for rep := 0; rep < j.Reps; rep++ {
 		var wg sync.WaitGroup
 		start := make(chan struct{})
-		for i := 0; i < 4; i++ {
+		for i := 0; i < 8; i++ {
 			i := i
 			wg.Add(1)
 			go func() {
 				defer wg.Done()
 				<-start
-				_ = concBody(i, 2)
+				raceBody(rep, i)
 			}()
 		}
 		close(start)
@@ -522,9 +543,117 @@ func longHistory(run *ev.Run, n int) {
 	}
 }
 
+// c15Sweep: for every record type named in the tree's normalizations.yaml x every syscall of the native table,
+// the compound event "that record first + a SYSCALL" coalesced ONCE, in a given visiting order, in a fresh
+// process; the digests of all (type, syscall) pairs are compared between orders: the outcome for one group of
+// messages does not depend on which other groups the process coalesced before.
+type c15SweepJob struct{ Order string }
+
+func c15SweepWorker(j c15SweepJob) map[string]string {
+	b, err := os.ReadFile(ev.Repo() + "/aucoalesce/normalizations.yaml")
+	if err != nil {
+		return map[string]string{"ERROR": err.Error()}
+	}
+	_, recs, err := aucoalesce.LoadNormalizationConfig(b)
+	if err != nil {
+		return map[string]string{"ERROR": err.Error()}
+	}
+	var types []string
+	for r := range recs {
+		if _, err := auparse.GetAuditMessageType(r); err == nil {
+			types = append(types, r)
+		}
+	}
+	sort.Strings(types)
+	var nrs []int
+	for nr := range auparse.AuditSyscalls["x86_64"] {
+		nrs = append(nrs, nr)
+	}
+	sort.Ints(nrs)
+	type pair struct {
+		rt string
+		nr int
+	}
+	var order []pair
+	switch j.Order {
+	case "type-major-ascending":
+		for _, rt := range types {
+			for _, nr := range nrs {
+				order = append(order, pair{rt, nr})
+			}
+		}
+	case "type-major-descending":
+		for i := len(types) - 1; i >= 0; i-- {
+			for k := len(nrs) - 1; k >= 0; k-- {
+				order = append(order, pair{types[i], nrs[k]})
+			}
+		}
+	default: // syscall-major, syscalls in a stride order
+		for k := range nrs {
+			nr := nrs[(k*131)%len(nrs)]
+			for _, rt := range types {
+				order = append(order, pair{rt, nr})
+			}
+		}
+	}
+	out := map[string]string{}
+	for _, p := range order {
+		lines := []string{
+			fmt.Sprintf("type=%s msg=audit(1492037400.000:%d): pid=1 uid=0 auid=1000 ses=3 op=x acct=\"a\" exe=\"/x\" hostname=h addr=1.2.3.4 terminal=t res=success", p.rt, 900+p.nr),
+			fmt.Sprintf("type=SYSCALL msg=audit(1492037400.000:%d): arch=c000003e syscall=%d success=yes exit=0 a0=1 a1=2 a2=3 a3=4 items=0 ppid=1 pid=2 auid=1000 uid=0 gid=0 euid=0 suid=0 fsuid=0 egid=0 sgid=0 fsgid=0 tty=pts0 ses=3 comm=\"c\" exe=\"/x\" key=(null)", 900+p.nr, p.nr),
+		}
+		e, cerr := aucoalesce.CoalesceMessages(parseGroup(lines))
+		h := sha1.Sum([]byte(evSnap(e, cerr)))
+		out[fmt.Sprintf("%s/%d", p.rt, p.nr)] = hex.EncodeToString(h[:6])
+	}
+	return out
+}
+
+func c15Sweep(run *ev.Run) {
+	orders := []string{"type-major-ascending", "type-major-descending", "syscall-major-stride"}
+	var jobs []interface{}
+	for _, o := range orders {
+		jobs = append(jobs, c15SweepJob{Order: o})
+	}
+	res := map[string]map[string]string{}
+	par.Map("c15sweep", jobs, time.Hour, nil, func(r par.Result) {
+		if r.Died || r.Hang != "" {
+			run.Errorf("sweep worker failed: %s %s", r.Hang, r.Stderr)
+			return
+		}
+		var m map[string]string
+		if err := json.Unmarshal(r.Out, &m); err != nil || m["ERROR"] != "" {
+			run.Errorf("sweep worker: %v %s", err, m["ERROR"])
+			return
+		}
+		res[orders[r.Job]] = m
+	})
+	ref := res[orders[0]]
+	for _, o := range orders[1:] {
+		var diff []string
+		for k, v := range res[o] {
+			if ref[k] != v {
+				diff = append(diff, k)
+			}
+		}
+		sort.Strings(diff)
+		if len(diff) > 0 {
+			n := len(diff)
+			if n > 8 {
+				diff = diff[:8]
+			}
+			run.Report(ev.Violation{Sig: "C15 outcome-depends-on-what-was-coalesced-before", What: fmt.Sprintf("the compound events (record type / syscall) %v ... (%d in all) come out differently when the process visits the %d (type, syscall) groups in %s order instead of %s order (each order in a fresh process)", diff, n, len(ref), o, orders[0]), Replay: map[string]interface{}{"orders": []string{orders[0], o}, "first_differing": diff}})
+		}
+		run.Add("traces_validated_against_impl", int64(len(res[o])))
+	}
+	run.Add("traces_validated_against_impl", int64(len(ref)))
+	run.Set("order_sweep_groups_per_order", len(ref))
+}
+
 func checkC15(tier, raceBin string) int {
 	run := ev.Begin("C15", tier, "model_checking")
 	tableSweep(run)
+	c15Sweep(run)
 	if tier == "thorough" {
 		longHistory(run, 300000)
 	} else {
@@ -537,7 +666,7 @@ func checkC15(tier, raceBin string) int {
 	// the per-call clauses (inputs intact, coalescing again / from a fresh parse gives an equal event) over
 	// every group the C09 enumerations produce (all st_mode values, all record types single / repeated /
 	// without SYSCALL, every native syscall, every arrangement of auxiliary records, non-ASCII and relative names)
-	enumx.Run(run, "C15", []string{"c15:c09-modes", "c15:c09-groups", "c15:c09-singles", "c15:c09-repeats", "c15:c09-names", "c15:c09-syscalls"}, tier, 16, true)
+	enumx.Run(run, "C15", []string{"c15:c09-modes", "c15:c09-groups", "c15:c09-singles", "c15:c09-repeats", "c15:c09-names", "c15:c09-syscalls", "c15:c09-missing", "c15:c09-times"}, tier, 16, true)
 	hs := c15Histories(maxLen)
 	var jobs []interface{}
 	n := 64
